@@ -29,7 +29,8 @@ def run(ctx):
     # Tier B: Vyukov.tla (enqueue_with / dequeue_with as coded, ghost abstract queue; the textbook variant must fail)
     vlib.model_check_many(ctx, [dict(module_rel="queue/VyukovMC.tla", cfg_rel="queue/Vyukov_q.cfg" if ctx.quick() else "queue/Vyukov_t.cfg", workers=8, timeout=3000),
                                 dict(module_rel="queue/VyukovMC.tla", cfg_rel="queue/Vyukov_q2.cfg", workers=4),
-                                dict(module_rel="queue/VyukovMC.tla", cfg_rel="queue/Vyukov_bad_textbook.cfg", workers=2, expect_violation="LinOK")], par=3)
+                                dict(module_rel="queue/VyukovMC.tla", cfg_rel="queue/Vyukov_bad_textbook.cfg", workers=2, expect_violation="LinOK"),
+                                dict(module_rel="queue/VyukovMC.tla", cfg_rel="queue/Vyukov_bad_maskedfull.cfg", workers=2, expect_violation="LinOK")], par=3)
     progs = list(PROGRAMS) + [gen_program(ctx.rng) for _ in range(1 if ctx.quick() else 6)]
     jobs = make_jobs(ctx, "queue", MPMC, progs) + make_jobs(ctx, "queue", SC, SC_PROGRAMS)
     vlib.run_jobs(ctx, jobs)
